@@ -883,7 +883,35 @@ func runC05(e *Engine, r *Report, tier string) {
 				idStore = i
 			}
 		})
-		if idStore != nil {
+		// the record that is re-added is the very record that was read from the pool (not a rebuilt one)
+		rebuilt := false
+		for _, a := range set.Common().Args {
+			if !strings.HasSuffix(a.Type().String(), "OutgoingTransferTx") {
+				continue
+			}
+			fromPool := false
+			e.Slice(a, SliceOpts{MaxDepth: 8}, func(x ssa.Value) Verdict {
+				if c2, ok := x.(*ssa.Call); ok {
+					if e.callDirectOp(c2, cc, "18", "get,iter") {
+						fromPool = true
+						return Accept
+					}
+					for _, f := range e.calleesOf(c2) {
+						if e.HasTransEffect(f, cc, "18", "get,iter") {
+							fromPool = true
+							return Accept
+						}
+					}
+				}
+				return Continue
+			})
+			if !fromPool {
+				rebuilt = true
+			}
+		}
+		if rebuilt {
+			r.Fail("R5", ck+" identity", e.InstrPos(set), "the fee increase re-adds a rebuilt record instead of the record read from the pool: its sender / destination / token are whatever the rebuilding code puts there (e.g. the fee payer becomes the owner and can cancel the transfer)")
+		} else if idStore != nil {
 			r.Fail("R5", ck+" identity", e.InstrPos(idStore), "fee increase modifies the transfer's id/sender/destination/token")
 		} else {
 			r.Ok("R5", ck+" identity", e.Pos(fn.Pos()), "id, sender, destination, token untouched")
